@@ -8,7 +8,7 @@ LEVEL = "exploration"
 RULE = (
     "seeded Tasklang programs over 2-4 batch kinds (plus DebugBatch) with skewed item counts, get_priority() "
     "policies (default = most items, per-kind permutations, per-batch hashes with ties, fewest-first, all-tied), flush "
-    "bodies that succeed, set item errors, skip items, raise part-way (Exception/BaseException) or create new items. "
+    "bodies that succeed, set item errors, skip items, raise part-way (Exception/BaseException), create new items, or themselves call asynq code synchronously (re-entering the scheduler from inside a flush). "
     "Profile Y (yield-only): at every on_before_batch_flush the flushed batch's priority must equal the maximum over "
     "all batches holding an item some reachable task is waiting for (harness knowledge, not scheduler state). "
     "Profile S (sync re-entry, and items whose value() is taken synchronously so that scheduled batches get flushed behind the scheduler's back): a flush while the innermost awaited computation (top level or nested sync call) has "
@@ -36,6 +36,9 @@ BASE = dict(
 )
 Y = [gen.profile(kinds=k, **dict(BASE, w_stmt=dict(sync=0, orphan=0.0, raise_=0.1, try_=1.4))) for k in (2, 3, 4)]
 S = [gen.profile(kinds=k, **dict(BASE, w_stmt=dict(sync=2.5, orphan=0.3, raise_=0.1, try_=1.2, syncitem=1.2))) for k in (2, 3)]
+# profile F: flush bodies that re-enter the scheduler (scheduler-driven flushes only: no direct item.value() flushes,
+# whose combination with a re-entering flush body is outside the stated quantifier - see DESIGN.md section 9)
+F = [gen.profile(kinds=k, **dict(BASE, p_nestedsync=0.12, w_stmt=dict(sync=1.5, orphan=0.2, raise_=0.1, try_=1.2, syncitem=0))) for k in (2, 3)]
 HOWS = ["call", "value", "yielded", "yielded_value"]
 
 
@@ -62,9 +65,9 @@ def run_unit(unit, progress):
     for i in range(a, b):
         progress(i)
         cs = tl.case_seed(unit["seed"], ID, i)
-        sel = i % 5
+        sel = i % 7
         yield_only = sel < 3
-        prof = Y[sel] if yield_only else S[sel - 3]
+        prof = Y[sel] if yield_only else (S[sel - 3] if sel < 5 else F[sel - 5])
         prog = gen.generate(cs, prof)
         rnd = random.Random(cs ^ 0xC05)
         exp_rrt = None
@@ -92,6 +95,7 @@ def run_unit(unit, progress):
             nfl = sum(1 for ev in rt.log if ev[0] == "flush_body")
             maxfl = max(maxfl, nfl)
             inc("flushes", nfl)
+            inc("flush_bodies_that_called_asynq_synchronously", rt.nested_flush_calls)
             inc("spawned_items_joined_fresh_batch", sum(1 for ev in rt.log if ev[0] == "spawned" and ev[1] != ev[2]))
             for ev in rt.log:
                 if ev[0] == "spawned" and ev[1] == ev[2]:
@@ -191,6 +195,7 @@ def reach(c, tier):
         "runs_with_failing_flush_bodies",
         "n_item_checks",
         "spawned_items_joined_fresh_batch",
+        "flush_bodies_that_called_asynq_synchronously",
         "flush_call_made_to_raise_preflush",
         "flush_call_made_to_raise_override",
         "flush_call_made_to_raise_switch",
